@@ -44,10 +44,6 @@ class Run(PropRunStream):
     corpus = [C.jsonable(c) for c in []]
 
 
-def streams(ctx):
-    return [Sched(), Run()]
-
-
 def _disabled_dep_witness():
     """suite s1's setup fails (failed check in its suite fixture), its DISABLED test t1 is 'skipped' by the scheduler
     (reported disabled); s2.t4 depends on s1.t1 only and is skipped although all its dependencies are passed or disabled"""
@@ -61,3 +57,55 @@ def _disabled_dep_witness():
 from run import witnesses2 as W2  # noqa: E402
 
 Run.corpus = [_disabled_dep_witness()] + W2.CONTROLS2
+
+
+# ---- the declaration path: stacked depends_on decorators, predicates, validation of the dependency graph -------------------
+from props._decl import DeclStream, DECL_TRUSTED, DEPS_RULE, CORPUS_DEPS
+from props._declrun import DeclRunStream, DECLRUN_TRUSTED, DECLRUN_RULE
+from props import _declrun_corpus as DC
+
+
+from props._decl_corpus2 import DeclParamDeps, CORPUS_PARAM_DEPS
+
+
+class Decl(DeclParamDeps):
+    """generated classes with dense dependency graphs (valid and invalid) through the real loader and PreparedProject.create"""
+    name = "C04.decl"
+    profile = "deps"
+    oracles = ("C04",)
+    quick_cases = 150
+    quick_seconds = 16
+    thorough_cases = 1500
+    thorough_seconds = 300
+    corpus = CORPUS_DEPS + CORPUS_PARAM_DEPS
+
+
+class DeclRun(DeclRunStream):
+    """run-level projects declared with stacked depends_on decorators / predicates / parametrized groups, under the recorder"""
+    name = "C04.declrun"
+    prop = "C04"
+    profile = "basic"
+    oracles = ("C04", "C08")
+    keep_prefixes = ("C04/",)
+    quick_cases = 110
+    quick_seconds = 14
+    thorough_cases = 1500
+    thorough_seconds = 300
+    decl_opts = dict(p_stack=0.8, p_pred=0.35, p_group=0.35)
+    corpus = DC.C04_CORPUS
+
+    def prepare_project(self, project, rng=None):
+        # denser dependency graphs than the run-level generator gives: up to 3 dependencies per test
+        from props._declrun import densify_deps, normalise_project
+        return densify_deps(rng, normalise_project(project))
+
+
+LEAN_MODULES = LEAN_MODULES + ["LccModel.Props.C04Decl"]
+PROPS_FILES = PROPS_FILES + ["LccModel/Props/C04Decl.lean"]
+NAMESPACES = dict(NAMESPACES, **{"LccModel/Props/C04Decl.lean": "LccModel.C04Decl"})
+TRUSTED_BASE = TRUSTED_BASE + DECL_TRUSTED + DECLRUN_TRUSTED
+RULE = RULE + "; " + DEPS_RULE + "; " + DECLRUN_RULE
+
+
+def streams(ctx):
+    return [Sched(), Run(), Decl(), DeclRun()]
